@@ -61,11 +61,11 @@ def run(tier, seed, only=None):
     rep.bounds = {
         'documents': {'J[1].data': h.DOC1, 'J[2].data': h.DOC2, 'R[1].tags': h.TAGS, 'R[1].names': h.NAMES, 'R[1].vals': h.VALS},
         'targets': {k: '%s[%d].%s%s' % (v[0], v[1], v[2], ''.join('[%r]' % s for s in v[3])) for k, v in h.TARGETS.items()},
-        'list index': [h.IDX_LO, h.IDX_HI], 'slice bounds': ['None', h.SL_LO, h.SL_HI] if tier == 'quick' else ['None', -3, 4],
-        'slice steps': list(h.STEPS) if tier == 'quick' else [None, -1, 2, 1, -2],
+        'list index': [h.IDX_LO, h.IDX_HI], 'slice bounds': ['None', h.SL_LO, h.SL_HI],
+        'slice steps': list(h.STEPS),
         'slice harness targets': list(QUICK_SLICE_TARGETS) if tier == 'quick' else list(h.LIST_TARGETS),
-        'keys': list(h.KEYS), 'repeat count': [h.N_LO, h.N_HI] if tier == 'quick' else [-1, 3], 'inserted integer': 'unbounded (z3 Int)',
-        'value shapes': 4 if tier == 'quick' else 7, 'iterable shapes': 4 if tier == 'quick' else 6,
+        'keys': list(h.KEYS), 'repeat count': [h.N_LO, h.N_HI], 'inserted integer': 'unbounded (z3 Int)',
+        'value shapes': h.NSHAPE, 'iterable shapes': h.NSEQ, 'value shapes in slice assignment': h.NSLSHAPE,
         'operations': {'list': [n for n, _ in h.LIST_OPS + h.LIST_SLICE_OPS + h.LIST_ALIAS_OPS[:2]], 'dict': [n for n, _ in h.DICT_OPS + h.DICT_ALIAS_OPS[:1]],
                        'list reads': [n for n, _ in h.LIST_READS], 'dict reads': [n for n, _ in h.DICT_READS]},
     }
@@ -79,6 +79,7 @@ def run(tier, seed, only=None):
     if not only or only == 'tie':
         structural(rep, h)
         ties(rep, h, tier)
+        if tier == 'thorough': pairs(rep, h)
     return rep
 
 
@@ -150,27 +151,35 @@ def _find(h, opname, dict_target):
 
 
 def tie_once(h, target, opname, args, second):
-    """session 1: load, apply the operation [flush, then change the newest nested container]; commit.  session 2: re-read.
+    """`op` [; flush(); change the container the operation inserted]; commit; re-read in a new session"""
+    return tie_program(h, target, [('op', opname, args)] + ([('flush',), ('nested',)] if second else []))
+
+
+def tie_program(h, target, steps):
+    """session 1: load the target, run the steps, commit.  session 2: re-read.
     Returns (plain value the program saw at the end of session 1, plain value read in session 2)."""
     from pony.orm import db_session, flush
     _restore(h)
-    A = h.Args(**args); A.kind = h.KIND[target]
-    if A.kind != 'json': A.shape = 0          # valid items only: the tie is about persistence, not item validation
-    f = _find(h, opname, target in h.DICT_TARGETS)
     with db_session:
         o, attr, aname, root, c, parent, key = h._load(target)
         old_ids = set(_container_ids(root))
-        try:
-            if opname.startswith('stmt_'): f(c, A, o, aname, parent, key)
-            else: f(c, A)
-        except Exception:
-            pass
-        if second:
-            flush()
-            inner = _newest_container(getattr(o, aname), old_ids)
-            if inner is not None:
-                if isinstance(inner, dict): inner['tie'] = 1
-                else: inner.append(77)
+        for step in steps:
+            if step[0] == 'flush':
+                flush()
+            elif step[0] == 'nested':
+                inner = _newest_container(getattr(o, aname), old_ids)
+                if inner is not None:
+                    if isinstance(inner, dict): inner['tie'] = 1
+                    else: inner.append(77)
+            else:
+                A = h.Args(**step[2]); A.kind = h.KIND[target]
+                if A.kind != 'json': A.shape = 0          # valid items only: the tie is about persistence, not item validation
+                f = _find(h, step[1], target in h.DICT_TARGETS)
+                try:
+                    if step[1].startswith('stmt_'): f(c, A, o, aname, parent, key)
+                    else: f(c, A)
+                except Exception:
+                    pass
         seen = h.plain(getattr(o, aname))
     with db_session:
         o2 = (h.J if h.TARGETS[target][0] == 'J' else h.R)[h.TARGETS[target][1]]
@@ -226,3 +235,26 @@ def ties(rep, h, tier):
                                                              'then_flush_and_change_nested': second, 'seen': repr(seen), 'stored': repr(stored)},
                                detail='program saw %r, a new session reads %r' % (seen, stored), reproduced=True, key=key,
                                replay=_replay_text(target, opname, args, second)))
+
+
+def pairs(rep, h):
+    """thorough tier: every ordered pair `op1; flush(); op2; commit` of table operations on the same container (concrete)"""
+    inplace = ('iadd', 'imul', 'ior')
+    for target in h.TARGETS:
+        is_dict = target in h.DICT_TARGETS
+        tables = (h.DICT_OPS + h.DICT_ALIAS_OPS[:1]) if is_dict else (h.LIST_OPS + h.LIST_SLICE_OPS + h.LIST_ALIAS_OPS[:2])
+        for op1, _ in tables:
+            for op2, _ in tables:
+                for n, (a1, a2) in enumerate(((TIE_ARGS[0], TIE_ARGS[1]), (TIE_ARGS[2], TIE_ARGS[0]))):
+                    steps = [('op', op1, a1), ('flush',), ('op', op2, a2)]
+                    seen, stored = tie_program(h, target, steps)
+                    nm = 'pair:%s:%s;flush;%s:%d' % (target, op1, op2, n)
+                    if seen == stored:
+                        rep.add(Ob(nm, 'concrete-tie', HOLDS))
+                        continue
+                    key = K_INPLACE if (op1 in inplace or op2 in inplace) else None
+                    rep.add(Ob(nm, 'concrete-tie', CEX, cex={'target': rep.bounds['targets'][target], 'steps': steps, 'seen': repr(seen), 'stored': repr(stored)},
+                               detail='program saw %r, a new session reads %r' % (seen, stored), reproduced=True, key=key,
+                               replay=('# C28 replay: run with /verif/.venv/bin/python from /verif\nimport sys; sys.path.insert(0, %r)\nfrom checks import c28, h_c28 as h\nh.setup()\n'
+                                       'seen, stored = c28.tie_program(h, %r, %r)\nprint("seen  :", seen)\nprint("stored:", stored)\nsys.exit(0 if seen == stored else 1)\n')
+                                      % (os.path.dirname(os.path.dirname(os.path.abspath(__file__))), target, steps)))
